@@ -40,7 +40,8 @@ async function dynamic ({ leaf, resp, a, v, code, ctx }) {
             }
           } else {
             const fn = ops[0]
-            if (ops.length < 2) problems.push({ sig: 'method-arity', d: `${name} called with ${ops.length} operands (needs function and receiver)` })
+            // (a spread this-argument may expand to nothing: the receiver is then undefined)
+            if (ops.length < 1) problems.push({ sig: 'method-arity', d: `${name} called without the invoked function` })
             else if (typeof fn !== 'function') problems.push({ sig: 'method-fn', d: `${name}: second argument is not the function that was invoked (${w.canon(fn)})` })
             else {
               let exp; let threw = false
@@ -70,7 +71,7 @@ async function dynamic ({ leaf, resp, a, v, code, ctx }) {
 
 module.exports = mk({
   id: 'C03',
-  families: ['A', 'C', 'B'],
+  families: ['A', 'C', 'B', 'M'],
   familyOpts: (tier) => ({ B: { k: tier === 'thorough' ? 2 : 1 } }),
   // operations whose operands are `+` expressions, under configurations with the plus operator disabled
   // (the operand is then NOT turned into a hook call by the child-first traversal)
